@@ -200,6 +200,22 @@ func RunHistory(rng *common.Rng, cfg Config) (*Run, error) {
 		if (o.Cmd == "copy" || o.Cmd == "move") && m.Selected && o.Mb == m.Mb {
 			selfReadd[o.S] = true
 		}
+		if o.Cmd == "searchbad" {
+			// a refused SEARCH: still no EXPUNGE may be sent, and the mirror is fed as usual
+			for _, r := range obs.Out {
+				if r.Kind == "EXPUNGE" {
+					fail("C05", "EXPUNGE during a refused SEARCH", strings.Join(obs.Raw, " / "))
+					break
+				}
+			}
+			if obs.Outcome != "ONo" {
+				fail("C05", "SEARCH with an unknown charset not refused with NO", strings.Join(obs.Raw, " / "))
+			}
+			if e := m.applyOut(obs.Out); e != "" {
+				fail("C01", "illegal response stream: "+stripNums(e), e+" | "+strings.Join(obs.Raw, " / "))
+			}
+			return obs, nil
+		}
 		if obs.Outcome != "OOk" && obs.Outcome != "OOkIssued" {
 			if o.Cmd != "done" && o.Cmd != "idle" {
 				fail("C01", "command refused: "+o.Cmd+" -> "+obs.Outcome, strings.Join(obs.Raw, " / "))
@@ -493,7 +509,7 @@ func RunHistory(rng *common.Rng, cfg Config) (*Run, error) {
 		case x < 56:
 			o = Op{Kind: "cmd", S: s, Cmd: "probe"}
 		case x < 59:
-			o = Op{Kind: "cmd", S: s, Cmd: "search"}
+			o = Op{Kind: "cmd", S: s, Cmd: []string{"search", "search", "searchbad"}[rng.Pick(3)]}
 		case x < 64:
 			o = Op{Kind: "cmd", S: s, Cmd: "noop"}
 		case x < 66:
